@@ -88,6 +88,8 @@ class Interp:
         comps = comps[:dim] + [0] * (dim - len(comps))
         if kind == 'tuple':
             return tuple(comps)
+        if kind == 'list' and prop != 'ctor':
+            return list(comps)
         V = self.dmath.Vec2 if dim == 2 else self.dmath.Vec3
         return V(*comps)
 
@@ -239,7 +241,7 @@ def execute(scenario, prop, tolerate=frozenset()):
 def gen_value(rng, dim, prop):
     if prop == 'rotation' and dim == 2:
         return rng.choice(ROT2)
-    return [rng.choice(['vec', 'vec', 'tuple']),
+    return [rng.choice(['vec', 'vec', 'tuple', 'list']),
             [rng.choice(COMPS) for _ in range(dim)]]
 
 
